@@ -839,24 +839,42 @@ def trace(a, *args, **kwargs):
     return np.trace._implementation(np.asarray(a), *args, **kwargs) * a.units
 
 
+def _quantile_helper(func, a, q, axis=None, out=None, *args, **kwargs):
+    # write into a plain view of out, then label both the buffer and the result:
+    # numpy hands the out buffer back, so multiplying it by a.units would either
+    # square the units (buffer labelled a.units) or leave the buffer mislabelled
+    ret_units = a.units
+    if out is None:
+        return (
+            func._implementation(np.asarray(a), q, axis, None, *args, **kwargs)
+            * ret_units
+        )
+    res = func._implementation(
+        np.asarray(a), q, axis, np.asarray(out), *args, **kwargs
+    )
+    if getattr(out, "units", None) is not None:
+        out.units = ret_units
+    return _wrap_out_result(res, ret_units)
+
+
 @implements(np.percentile)
 def percentile(a, *args, **kwargs):
-    return np.percentile._implementation(np.asarray(a), *args, **kwargs) * a.units
+    return _quantile_helper(np.percentile, a, *args, **kwargs)
 
 
 @implements(np.quantile)
 def quantile(a, *args, **kwargs):
-    return np.quantile._implementation(np.asarray(a), *args, **kwargs) * a.units
+    return _quantile_helper(np.quantile, a, *args, **kwargs)
 
 
 @implements(np.nanpercentile)
 def nanpercentile(a, *args, **kwargs):
-    return np.nanpercentile._implementation(np.asarray(a), *args, **kwargs) * a.units
+    return _quantile_helper(np.nanpercentile, a, *args, **kwargs)
 
 
 @implements(np.nanquantile)
 def nanquantile(a, *args, **kwargs):
-    return np.nanquantile._implementation(np.asarray(a), *args, **kwargs) * a.units
+    return _quantile_helper(np.nanquantile, a, *args, **kwargs)
 
 
 @implements(np.linalg.det)
